@@ -20,6 +20,7 @@ def non_test_span(text):
 
 ROUND2 = False
 ROUND3 = False
+ROUND4 = False
 
 
 def gen_mutants():
@@ -165,6 +166,35 @@ def gen_mutants():
                     add(m.start(), '.keys()', '.keys().skip(1)', 'keys-skip')
                 for m in re.finditer(r'\.unwrap_or\(([^()]+)\)', code):
                     pass
+            if ROUND4:
+                # round 4 operators - rare-input conditions: every mutant behaves like the original on small modules (so the suite cannot see it) and
+                # differently on a module with more than 1000 types / 100000-sized quantities: a conjunct or disjunct added to a condition, an
+                # iteration cut off after 1000 elements, a number clamped, an early `return` of an empty result at the top of a function
+                fn_has_module = False
+                k_ = ln - 1
+                while k_ >= 0:
+                    if re.match(r'^(pub )?fn ', lines[k_].strip()):
+                        sig = ' '.join(lines[k_:k_ + 12])
+                        sig = sig[:sig.find('{')] if '{' in sig else sig
+                        fn_has_module = bool(re.search(r'\bmodule: &(naga::)?Module', sig))
+                        break
+                    k_ -= 1
+                if fn_has_module:
+                    m = re.match(r'^(\s*)(\} else )?if (?!let )(.+) \{\s*$', code)
+                    if m:
+                        st_ = len(m.group(1)) + len(m.group(2) or '') + 3
+                        add(st_, m.group(3), '(' + m.group(3) + ') && module.types.len() < 1000', 'rare-conjunct')
+                        add(st_, m.group(3), '(' + m.group(3) + ') || module.types.len() > 1000', 'rare-disjunct')
+                    for m in re.finditer(r'\.iter\(\)', code):
+                        add(m.start(), '.iter()', '.iter().take(1000)', 'rare-take')
+                    for m in re.finditer(r'\.filter\(\|(\w+)\| ', code):
+                        add(m.end(), '', 'module.types.len() < 1000 && ', 'rare-filter-conjunct')
+                    m = re.match(r'^(pub )?fn \w+.*-> (TokenStream|Vec<TokenStream>|Vec<\w+>|usize|bool) \{\s*$', line)
+                    if m:
+                        dflt = {'TokenStream': 'quote!()', 'usize': '0', 'bool': 'false'}.get(m.group(2), 'Vec::new()')
+                        add(len(line), '', f'\n    if module.types.len() > 1000 {{ return {dflt}; }}', 'rare-early-return')
+                for m in re.finditer(r'usize_unsuffixed\(([^()]*(\([^()]*\))?[^()]*)\)', code):
+                    add(m.start(1), m.group(1), '(' + m.group(1) + ').min(100000)', 'rare-clamp')
             # statement deletion: a line that is one complete expression statement (method call / macro), not a let / return / brace
             if stripped.endswith(';') and not stripped.startswith(('let ', 'return', 'use ', 'pub ', 'const ', '}', '#', 'type ', 'struct ', 'mod ')) and \
                     stripped.count('(') == stripped.count(')') and '=' not in stripped.split('(')[0] and re.match(r'^[\w.:&*]+[(!]', stripped):
@@ -252,6 +282,11 @@ if __name__ == '__main__':
         globals()['ROUND3'] = True
         muts = [m for m in gen_mutants() if (m['file'], m['pos'], m['old'], m['new']) not in first]
         globals()['ROUND3'] = False
+    if '--round4' in args:
+        first = {(m['file'], m['pos'], m['old'], m['new']) for m in gen_mutants()}
+        globals()['ROUND4'] = True
+        muts = [m for m in gen_mutants() if (m['file'], m['pos'], m['old'], m['new']) not in first]
+        globals()['ROUND4'] = False
     if '--list' in args:
         from collections import Counter
         print(len(muts), Counter(m['op'] for m in muts))
